@@ -217,7 +217,7 @@ func Main(args []string) error {
 	_ = rng
 
 	var mu sync.Mutex
-	nseg, nemsg, noth, nrej, nmpd, nwrap := 0, 0, 0, 0, 0, 0
+	nseg, nemsg, noth, nrej, nmpd, nwrap, nothSkipped := 0, 0, 0, 0, 0, 0, 0
 	var streamS int64
 	distinct := map[string]bool{}
 	samples := []any{}
@@ -305,6 +305,13 @@ func Main(args []string) error {
 				for _, ort := range reps {
 					u := tl.SegURL(cNum, a, ort, n) + "?nowMS=" + fmt.Sprint(now+3000)
 					r := env.S.Get(u)
+					if r.Status != 200 {
+						// not C13's business (e.g. an audio track whose loop length differs from the video's): counted, not judged
+						mu.Lock()
+						nothSkipped++
+						mu.Unlock()
+						continue
+					}
 					oe := tr.E{"ev": "oseg", "kind": ort.Kind, "rep": ort.ID, "n": fmt.Sprint(n), "st": r.Status, "perr": "", "nemsg": 0, "ntop": 0, "url": u}
 					if r.Status == 200 {
 						if m, err := project.ParseMedia(r.Body, ort.Trex); err != nil {
@@ -382,7 +389,7 @@ func Main(args []string) error {
 		}
 		events += w.N
 	}
-	tr.PrintStats(map[string]any{"scenarios": len(scens), "events": events, "segments": nseg, "emsgs": nemsg, "other_rep_segments": noth,
+	tr.PrintStats(map[string]any{"scenarios": len(scens), "events": events, "segments": nseg, "emsgs": nemsg, "other_rep_segments": noth, "other_rep_not_served": nothSkipped,
 		"rejections": nrej, "mpds": nmpd, "stream_hours": float64(streamS) / 3600, "runs_with_pts_wrap": nwrap,
 		"distinct": len(distinct), "samples": samples, "assets": len(assets)})
 	return nil
